@@ -303,6 +303,26 @@ theorem C17_extend (cur new : Tpls) (hc : (cur.map (·.1)).Nodup) (hn : (new.map
       exact ⟨p, hp, q, hq, hpn.symm⟩
 
 -- non-vacuity: inserted text is not rescanned; brace runs; unknown placeholders untouched
+/-- templates apply when a rule is loaded, with the templates known at that moment: loading a rule appends its
+    templated text, and template documents that arrive later change no loaded rule -/
+theorem C17_load_time (c : Compiler) :
+    (∀ r c', Compiler.load c r = .ok c' → Rule.isDisabled r = false →
+      c'.rules = c.rules ++ [applyTemplates c.templates r] ∧ c'.templates = c.templates) ∧
+    (∀ t c', Compiler.loadTemplates c t = .ok c' → c'.rules = c.rules ∧ c'.loaded = c.loaded ∧ c'.compiled = c.compiled) := by
+  constructor
+  · intro r c' h hd
+    simp only [Compiler.load, hd, Bool.false_eq_true, if_false] at h
+    split at h
+    · cases h
+    · simp only [Except.ok.injEq] at h
+      subst h; exact ⟨rfl, rfl⟩
+  · intro t c' h
+    simp only [Compiler.loadTemplates] at h
+    split at h
+    · simp only [Except.ok.injEq] at h
+      subst h; exact ⟨rfl, rfl, rfl⟩
+    · cases h
+
 /-- `Templates::insert`: a name can be defined once; a refused insert changes nothing (the caller keeps `cur`),
     an accepted one appends the definition and keeps the names distinct -/
 theorem C17_insert (cur : Tpls) (name text : Str) (hc : (cur.map (·.1)).Nodup) :
